@@ -462,7 +462,7 @@ def shard_main(ctx):
     # shards 8-11 (quick) / all shards (thorough): a coverage-guided campaign over save-format texts with the round-trip oracle in the target
     if not ctx.failures and (ctx.tier == "thorough" or 8 <= ctx.shard < 12):
         from .. import fuzz
-        fuzz.campaign(ctx, "fuzz_restore", "C16", fuzz_root(ctx, "fuzz"), {"quick": 60000, "thorough": 4000000}[ctx.tier], max_len=2048)
+        fuzz.campaign(ctx, "fuzz_restore", "C16", fuzz_root(ctx, "fuzz"), {"quick": 60000, "thorough": 2000000}[ctx.tier], max_len=2048)
 
 
 def replay(ctx, case):
